@@ -346,6 +346,15 @@ def gammas(run):
     for nrow in ((4,) if quick else (3, 4, 6, 8)):
         out.append(({"strategy": "page_by", "L": 1, "nrow": nrow, "header": "none", "new_page": True, "pageby_row": "first_row", "recur": True}, [1], 5))
         out.append(({"strategy": "subline", "L": 1, "nrow": nrow, "header": "none", "recur": True}, [1], 5))
+    # group values that differ only by a trailing blank are different values (d = 5)
+    for nrow in ((4,) if quick else (3, 4, 6)):
+        out.append(({"strategy": "page_by", "L": 1, "nrow": nrow, "header": "none", "new_page": True, "pageby_row": "first_row", "padded": True}, [1], 5))
+        out.append(({"strategy": "page_by", "L": 1, "nrow": nrow + 1, "header": "none", "padded": True}, [1], 5))
+        out.append(({"strategy": "subline", "L": 1, "nrow": nrow, "header": "none", "padded": True}, [1], 5))
+    # two key levels with null values: a level that is null on both sides of a change of the other level
+    for nrow in ((4,) if quick else (3, 4, 6)):
+        out.append(({"strategy": "page_by", "L": 2, "nrow": nrow, "header": "none", "new_page": True, "pageby_row": "first_row", "nulls": True}, [1], 4 if quick else 5))
+        out.append(({"strategy": "subline", "L": 2, "nrow": nrow, "header": "none", "nulls": True}, [1], 4 if quick else 5))
     # subline_by
     for nrow in ((3, 4, 6) if quick else (3, 4, 5, 6, 8)):
         for hm, fn, src in (res_pick(1) if quick else quarter):
